@@ -335,6 +335,9 @@ pub struct BuildingG {
     /// every value vector is repeated `tile` times (daily / hourly data: 365 ... 8 760 steps), cheaply:
     /// the pattern of the n generated steps recurs, the length is what changes
     pub tile: usize,
+    /// the whole set of systems is repeated `rep` times under other ids (id + 1000 j): buildings with hundreds of
+    /// systems and lines (not combined with long series)
+    pub rep: usize,
 }
 
 const ID_POOL: [i32; 10] = [0, 1, 2, 3, 7, -1, -2, 12, 5, 40];
@@ -637,8 +640,10 @@ pub fn building_g(p: &BParams) -> BoxedStrategy<BuildingG> {
                 select(fuels),
                 // long series: about one building in 33 has 365, 1 000, 4 380 or 8 760 steps (total, after tiling)
                 if p.max_steps >= 12 { prop_oneof![485 => Just(0usize), 2 => Just(365usize), 2 => Just(1000usize), 5 => Just(4380usize), 6 => Just(8760usize)].boxed() } else { Just(0usize).boxed() },
+                // many systems: about one building in 70
+                if p.max_steps >= 12 { prop_oneof![207 => Just(1usize), 1 => Just(20usize), 1 => Just(70usize), 1 => Just(300usize)].boxed() } else { Just(1usize).boxed() },
             )
-                .prop_flat_map(move |(keep, regime, quiet_elec, id_off, needs, interleave, cogen_fuel, long)| {
+                .prop_flat_map(move |(keep, regime, quiet_elec, id_off, needs, interleave, cogen_fuel, long, rep)| {
                     let no_elec = regime.is_some() && quiet_elec;
                     let min_sys = if regime.is_some() { 0 } else { 1 };
                     (
@@ -650,9 +655,10 @@ pub fn building_g(p: &BParams) -> BoxedStrategy<BuildingG> {
                         Just(interleave),
                         Just(cogen_fuel),
                         Just(long),
+                        Just(rep),
                     )
                 })
-                .prop_map(move |(keep, systems, regime, id_off, needs, interleave, cogen_fuel, long)| BuildingG {
+                .prop_map(move |(keep, systems, regime, id_off, needs, interleave, cogen_fuel, long, rep)| BuildingG {
                     n,
                     keep,
                     id_off,
@@ -662,6 +668,7 @@ pub fn building_g(p: &BParams) -> BoxedStrategy<BuildingG> {
                     interleave,
                     cogen_fuel,
                     tile: (long / keep.max(1)).max(1),
+                    rep: if long == 0 { rep } else { 1 },
                 })
         })
         .boxed()
@@ -946,6 +953,17 @@ pub fn resolve(g: &BuildingG) -> Building {
         .iter()
         .map(|(sv, v)| Need { srv: *sv, vals: v.iter().take(n).map(|c| cents_f32(*c)).collect() })
         .collect();
+    if g.rep > 1 {
+        let base = lines.clone();
+        for j in 1..g.rep {
+            for l in &base {
+                let mut l2 = l.clone();
+                l2.id += 1000 * j as i32;
+                lines.push(l2);
+            }
+        }
+        tags.push("many_systems".into());
+    }
     let mut n = n;
     if g.tile > 1 {
         for l in lines.iter_mut() {
